@@ -249,7 +249,6 @@ def short_sig_builds(rng, tier):
 
 
 # ---------------------------------------------------------------- two signature checks in one locking script
-P_OF = {}          # key hex (with the `u` marker) -> public key bytes; filled from PUBS below
 PUBS = {KEYS[0]: PK1,
         KEYS[1]: "0339a36013301597daef41fbe593a02cc513d0b55527ec2df1050e2e8ff49c85c2",
         KEYS[2]: "02f9308a019258c31049344f85f89d5229b531c845836f99b08601f113bce036f9"}
@@ -287,7 +286,17 @@ def two_check_build(ka, kb, fa, fb, seps, verify_tail=False, sub_a=None, sub_b=N
                             "%s.%s.%s" % (lock.hex(), sb.hex(), sa.hex()), "0"])
 
 
+TWO = set()          # argument tuples of the two-check builds
+
+
 def two_check_builds(rng, tier):
+    out = _two_check_builds(rng, tier)
+    TWO.clear()
+    TWO.update(tuple(c[1]) for c in out)
+    return out
+
+
+def _two_check_builds(rng, tier):
     out = []
     A, B = KEYS[1], KEYS[2]
     pairs = [(0x41, 0x41), (0x01, 0x01), (0x41, 0x01), (0x01, 0x41)]
@@ -484,6 +493,7 @@ def ms_protocol(rng, txhex, idx, ext):
         t2 = parse_tx(tb); t2["ins"][idx]["scr"] = b"".join(parts); out.append(spend_case(ser_tx(t2), idx, e or ext))
     with_unlock(sigs)                                   # no dummy element
     with_unlock([b"\x51"] + sigs)                       # another dummy
+    with_unlock([b"\x03\xaa\xbb\xcc"] + sigs)            # a non-empty data push as dummy
     with_unlock([b"\x00", b"\x00"] + sigs)              # one element too many below
     if len(sigs) >= 2:
         with_unlock([b"\x00"] + sigs[::-1])             # order reversed
@@ -541,12 +551,37 @@ def generate(rng, tier, pre=None):
     # 0. the assembling itself (Transaction::sign, script builders): the model reproduces the signed transaction byte for byte
     step = 3 if tier == "quick" else 1
     for k, ((op, args), out) in enumerate(pre or []):
-        if k % step == 0 or args[0] == "raw" or args[1].startswith(lz_tx(0)[:40]):
+        if k % step == 0 or args[0] in ("raw", "rawd") or tuple(args) in ALWAYS:
             cases.append((op, list(args)))
-    # 1. what the library built must be accepted (the `raw` ones are outside the families: correspondence only)
+    # 1. what the library built must be accepted (two checks: Spec/SpendTwo; other `raw` ones: correspondence, no panic)
     for kind, txhex, idx, ext, _ in built:
         cases.append(spend_case(txhex, idx, ext))
-    built = [b for b in built if b[0] != "raw"]
+    #    ... and the same through Iterator::next
+    for kind, txhex, idx, ext, _ in built[::(9 if tier == "quick" else 3)]:
+        cases.append(("interp.spend_steps", [txhex, str(idx), ext]))
+    # 1b. two checks: a separator added at every position after signing (kept by FORKID, erased by legacy: the specification
+    #     column decides which of them still verify), the two signatures swapped
+    two = [b for b in built if tuple(b[4]) in TWO]
+    for k, (kd, txhex, idx, ext, _) in enumerate(two if tier == "thorough" else two[::2][:8]):
+        ent, sat, lock = ext_fields(ext, idx)
+        lt = toks(lock)
+        for j in range(len(lt) + 1):
+            cases.append(spend_case(txhex, idx, set_ext(ent, idx, sat, join(lt[:j]) + b"\xab" + join(lt[j:]))))
+        for j, x in enumerate(lt):
+            if x[1] is None and x[0] == 0xAB:
+                cases.append(spend_case(txhex, idx, set_ext(ent, idx, sat, join(lt[:j]) + join(lt[j + 1:]))))
+        t2 = parse_tx(bytes.fromhex(txhex)); ut = toks(t2["ins"][idx]["scr"])
+        t2["ins"][idx]["scr"] = join(ut[::-1]); cases.append(spend_case(ser_tx(t2), idx, ext))
+        if k < 2:
+            cases.append(("interp.spend_steps", [ser_tx(t2).hex(), str(idx), ext]))
+    # 1c. SINGLE at an input index without an output: a spend signed with ALL whose flag byte is then one of the SINGLE ones
+    for kd, txhex, idx, ext, args in built:
+        if idx == 1 and kd == "p2pk" and args[5] in ("0.1", "0.65") and tuple(args) in ALWAYS:
+            t2 = parse_tx(bytes.fromhex(txhex)); sg = toks(t2["ins"][idx]["scr"])[0][1]
+            for f2 in (3, 0x43, 0x83, 0xC3):
+                t3 = parse_tx(bytes.fromhex(txhex)); t3["ins"][idx]["scr"] = push(sg[:-1] + bytes([f2]))
+                cases.append(spend_case(ser_tx(t3), idx, ext))
+    built = [b for b in built if b[0] not in ("raw", "rawd")]
     # 2. mutations
     by_kind = {}
     for b in built:
